@@ -7,7 +7,7 @@ RULE = ('descriptions over the full field ranges: Version/Level/Mask in {min-2..
         'supported ones, their neighbours, reserved QR modes), payloads at max-1 / max / max+1 characters of every (version, level, mode) capacity and of every count-field '
         'limit (2^bits-1, 2^bits), invalid characters at first/last position, invalid UTF-8 in kanji segments, empty segment lists and empty segments. '
         'Oracle: implementation succeeds iff the reference validity predicate (written from the standard) holds, and never panics; also run on the Lean model. '
-        'non-trivial = description that is valid, or invalid in exactly one respect')
+        'non-trivial = description that is valid, or invalid in exactly one respect (every description is generated that way, so all distinct ones count)')
 TRUSTED = [
     'Lean 4.33.0 kernel; axioms per theorem as listed',
     'reference validity predicates refqr.valid / refmicro.valid / refrmqr.valid (rMQR capacities and count widths are read from the regenerated tables)',
